@@ -87,10 +87,12 @@ class Interstitial(object):
             self.omega_invertible = any(np.allclose(g.cartrot, -np.eye(self.dim)) for g in crys.G)
         if self.omega_invertible:
             # invertible, so just use solve for speed (omega is technically *negative* definite)
-            self.bias_solver = lambda omega, b: -solve(-omega, b, assume_a='pos')
+            self.bias_solver = lambda omega, b, scale=0.: -solve(-omega, b, assume_a='pos')
         else:
-            # pseudoinverse required:
-            self.bias_solver = lambda omega, b: np.dot(pinv(omega), b)
+            # pseudoinverse required. The null mode (uniform translation) of the projected matrix is only zero up to the
+            # roundoff of the largest rate that cancels in the projection, so the cutoff is set by the scale of the rates
+            # (scale = largest entry of the site rate matrix), not by the largest singular value of the projected matrix
+            self.bias_solver = lambda omega, b, scale=0.: np.dot(pinv(omega, atol=1e-10 * scale), b)
         # these pieces are needed in order to compute the elastodiffusion tensor
         self.sitegroupops = self.generateSiteGroupOps()  # list of group ops to take first rep. into whole list
         self.jumpgroupops = self.generateJumpGroupOps()  # list of group ops to take first rep. into whole list
@@ -416,7 +418,7 @@ class Interstitial(object):
                 for b, vb in enumerate(self.VectorBasis):
                     omega_v[a, b] = np.trace(np.dot(va.T, np.dot(omega_ij, vb)))
                     domega_v[a, b] = np.trace(np.dot(va.T, np.dot(domega_ij, vb)))
-            gamma_v = self.bias_solver(omega_v, bias_v)
+            gamma_v = self.bias_solver(omega_v, bias_v, np.abs(omega_ij).max())
             dgamma_v = np.dot(domega_v, gamma_v)
             Dcorrection = np.dot(np.dot(self.VV, bias_v), gamma_v)
             Db += np.dot(np.dot(self.VV, dbias_v), gamma_v) \
@@ -506,7 +508,7 @@ class Interstitial(object):
                 for b, vb in enumerate(self.VectorBasis):
                     omega_v[a, b] = np.tensordot(va, np.tensordot(omega_ij, vb, ((1), (0))), ((0, 1), (0, 1)))
                     domega_v[a, b] = np.tensordot(va, np.tensordot(domega_ij, vb, ((1), (0))), ((0, 1), (0, 3)))
-            gamma_v = self.bias_solver(omega_v, bias_v)
+            gamma_v = self.bias_solver(omega_v, bias_v, np.abs(omega_ij).max())
             dg = np.tensordot(domega_v, gamma_v, ((1), (0)))
             # need to project gamma_v *back onto* our sites; not sure if we can just do with a dot since
             # self.VectorBasis is a list of Nx3 matrices
